@@ -42,6 +42,7 @@ def run(eng, ctx):
     SH.read_script(eng, ctx, "C01.D2", gate)
     # ---------------- D2
     SH.crc_gate(eng, ctx, "C01.D4")
+    SH.assembler_result(eng, ctx, "C01.D8", m)  # a damaged frame is rejected only if every assembled frame goes through the static parser
     ctx.rule("C05.D2", "the exception class raised on CRC failure is caught by the reader loop's handler")
     handlers = [n for n in walk_no_nested(rd.node) if isinstance(n, ast.ExceptHandler)]
     caught = set()
